@@ -239,15 +239,43 @@ def crate_view(prog, crate, known, max_blocks=200, max_callers=3):
     view.crates = dict(prog.crates)
     view._views = {}
     view._callers_count = None
+    # closures defined inside an inlined-away helper belong, for the rules, to the function the helper was inlined into
+    owner = {}
+    for g0 in c0.fns:
+        for b, t in g0.calls():
+            if callee(t) in helpers and g0.path not in helpers:
+                owner.setdefault(callee(t), g0.path)
+    changed = True
+    while changed:          # helper called from another helper
+        changed = False
+        for g0 in c0.fns:
+            if g0.path in helpers and g0.path in owner:
+                for b, t in g0.calls():
+                    if callee(t) in helpers and callee(t) not in owner:
+                        owner[callee(t)] = owner[g0.path]
+                        changed = True
     newfns = []
+    aliases = {}
     for f in c0.fns:
         if f.path in helpers:
+            continue
+        hp = next((h for h in helpers if f.path.startswith(h + "::{closure")), None)
+        if hp is not None and hp in owner:
+            g = copy.copy(f)
+            g._succ = g._pred = g._dom = g._pdom = g._defs = g._reach = None
+            g.path = owner[hp] + "::{closure@" + hp.split("::")[-1] + f.path[len(hp) + len("::{closure"):]
+            g.prog = view
+            aliases[f.path] = g
+            newfns.append(g)
             continue
         g = inlined(prog, f, lambda caller, h, t: h.path in helpers, depth=3)
         if g is not f:
             g.prog = view
         newfns.append(g)
-    view.crates[crate] = _CrateView(c0.name, c0.config, c0.adts, newfns)
+    cv = _CrateView(c0.name, c0.config, c0.adts, newfns)
+    for oldp, g in aliases.items():
+        cv.by_path.setdefault(oldp, g)      # aggregates still name the closure by its original path
+    view.crates[crate] = cv
     try:
         view._callers_count = None
     except AttributeError:
